@@ -130,3 +130,13 @@ package influx
 //@     invariant len(s) <= len(sOrig) && (forall k int :: 0 <= k && k < len(s) ==> s[k] == sOrig[len(sOrig) - len(s) + k])
 //@   loop 1
 //@     invariant 0 <= n && n <= nOrig && nOrig < len(s) && s[nOrig] == ch
+
+// Rows are decoded into pooled Row objects: whatever the batch says about index options REPLACES what the slot held
+// before - a row encoded without index options decodes with none (not with those of the row that used the slot last).
+//@ prop C07 C01
+//@ func (*Row).unmarshalIndexOptions
+//@   requires r != nil && len(src) >= 1
+//@   ghost rewritten bool = false
+//@   store Row.IndexOptions
+//@     set rewritten = true
+//@   ensures [slot_rewritten_on_every_successful_decode] result2 == nil ==> rewritten
